@@ -1310,6 +1310,16 @@ class Sim:
                 a = min(parked, key=lambda x: x.parked_until)
                 a.parked_until = 0
                 cands.append((1.0, "actor", a))
+        if self.eg and self.eg.get("phase", 1) >= 4 and self.scen.get("endgame_kill") and self.fault_budget > 0:
+            # endgame with node loss: once a released batch has recorded its last result, its node is killed (walltime / node
+            # failure) before it can attempt its own submitter round
+            rows = None
+            for bid, b in self.batches.items():
+                if b["state"] == "RUNNING" and b["seen"] and not any(a.node == str(bid) and a.role == "probe" for a in self.actors.values()):
+                    if not any(a.node == str(bid) and "try-submit-jobs" in a.cmd for a in self.actors.values()):
+                        rows = rows if rows is not None else set(self._rows_on_disk())
+                        if all(j in rows for j in b["jobs"] if j in {x for x, ls in self.launches.items()}):
+                            cands.append((5.0, "faultkill", bid))
         f = self.scen.get("faults") or {}
         if f.get("node_kill") and self.fault_budget > 0:
             for bid, b in self.batches.items():
